@@ -163,6 +163,16 @@ register("C11",
          "Trusted: Coq kernel; translator/gen_native.py; the hand-written list Model/Native.result_fields of what counts as result-affecting; PyYAML. No axioms.",
          "Coq proof over a generic table model + obligation on translator-regenerated tables; executed YAML round trip with model_dump / SQL / routing comparison", "DESIGN.md section 6/C11")
 
+register("C12",
+         "Machine-checked Coq: for ANY vocabulary tables, the criteria `all_faithful` / `export_maps_ok` imply that an aggregation literal sent through an exporter and back is kept or dropped but never turned into another literal outside a listed set "
+         "(C12_faithful_sound, C12_export_map_sound); generated obligations over the finite domain 11 aggregation literals x 15 adapters (evaluation is a proof): C12_export_defaults_listed -- in every exporter's `table.get(<metric>.agg, default)` table, "
+         "REGENERATED from the adapter sources on every run, a literal outside the table's keys is a listed replacement; C12_measured_tables_faithful -- the export -> import aggregation table MEASURED on one-measure models satisfies the criterion. "
+         "Everything else in the statement (filters, expressions, dimension types, granularities, keys, sources, relationships, segments, the second round trip) is decided by the exhaustive exporter x feature matrix (15 x 27 cells + pairs): "
+         "export -> import, every surviving metric / dimension / segment executed on both layers on the same data, second trip compared -- differential testing supporting the model, labelled as such. "
+         "Partial: 15 parsers / printers are not modelled; key / source / relationship-type changes are recorded as notes (lenient reading of 'when the format has syntax'). One known-finding entry per adapter lists its failing matrix cells.",
+         "Trusted: Coq kernel; translator/gen_adaptermaps.py (fail-closed on `.get(<..>.agg, ..)` over anything but a string dict literal); the measured tables and the matrix are produced by the harness; DuckDB. No axioms.",
+         "Coq proof over generic vocabulary tables + obligations on translator-regenerated exporter tables and measured round-trip tables; exhaustive adapter x feature matrix with executed before/after queries", "DESIGN.md section 6/C12")
+
 PENDING = "check not built yet in this revision (see DESIGN.md section 10 build order)"
 
 
